@@ -713,6 +713,13 @@ func (c *SpecCtx) call(e *SExpr) Val {
 		case "preexisting": // allocated before the call
 			x := c.eval(args[0])
 			return boolVal(Lt(x.C[0], c.old.ctr))
+		case "dynptr": // dynptr(x, T): interface value x holds a *T
+			x := c.eval(args[0])
+			nt := c.ex.namedStruct(typeArg(args[1]))
+			if nt == nil || len(x.C) != 2 {
+				panic(undecided{"dynptr: unknown struct type or non-interface argument"})
+			}
+			return boolVal(Eq(x.C[0], typeTag(types.NewPointer(nt))))
 		case "isnil":
 			x := c.eval(args[0])
 			return boolVal(Eq(x.C[0], IntLit(0)))
